@@ -35,7 +35,11 @@ def one(ctx, payload, label):
     want = refcrc.frame(payload)
     want1 = b"\xd3" + bytes([len(payload) >> 8, len(payload) & 0xFF]) + payload
     assert want[:-3] == want1 and refcrc.crc_ref1(want1) == int.from_bytes(want[-3:], "big")
-    s = m.serialize()
+    try:
+        s = m.serialize()
+    except Exception as e:
+        ctx.violation("serialize-raised", f"{label} len {len(payload)}: serialize() raised {type(e).__name__}: {e}", params)
+        return
     ctx.hit("serialize_checked")
     if s != want:
         where = "header" if s[:3] != want[:3] else "crc" if s[-3:] != want[-3:] else "payload"
